@@ -138,3 +138,70 @@ pub fn worker(ctx: &Ctx, args: &[String]) -> i32 {
     };
     worker_main(ctx, a)
 }
+
+/// C16 (e): per-input outcome digests must be identical in the checked (dev-like:
+/// overflow checks + debug assertions) and the stock release build.
+/// Writes a JSON document for asemon_c16 --extra.
+pub fn c16_cross(ctx: &Ctx, args: &[String]) -> i32 {
+    let out = args.iter().position(|a| a == "--out").and_then(|p| args.get(p + 1)).cloned().unwrap_or_else(|| "/dev/stdout".into());
+    let bases = ctx.tier.pick(32u64, 400u64);
+    let plan = Plan { mode: Mode::Digest, seed: ctx.seed, tier: ctx.tier, generated_bases: bases, corpus: true, size_cap: 256 * 1024 };
+    let mut results = Vec::new();
+    for (build, var, fallback) in [("checked", "ASEMON_BIN_CHECKED", "target/checked/asemon"), ("release", "ASEMON_BIN_RELEASE", "target/release/asemon"), ("dev", "ASEMON_BIN_DEV", "target/debug/asemon")] {
+        let mut p = plan.clone();
+        if build == "dev" {
+            // the unoptimised build is an order of magnitude slower: a small share
+            p.generated_bases = ctx.tier.pick(2, 24);
+            p.corpus = false;
+        }
+        let cfg = SupervisorCfg { bin: bin(var, fallback), build: build.to_string(), plan: p, workers: ctx.threads as u64, as_limit_gib: 12, extra_env: vec![], stall_secs: 120 };
+        results.push((build, supervise(ctx, &cfg)));
+    }
+    let corpus = crate::corpus::list(ctx);
+    let mut violations = Vec::new();
+    let mut inconclusive: Vec<String> = Vec::new();
+    let mut compared = 0u64;
+    let mut by_kind: std::collections::BTreeMap<String, u64> = Default::default();
+    let reference = &results[1].1; // release
+    for (build, r) in [&results[0], &results[2]] {
+        for ((b, s), code) in &r.codes {
+            if let Some(rc) = reference.codes.get(&(*b, *s)) {
+                compared += 1;
+                *by_kind.entry(code.split(':').next().unwrap_or("?").to_string()).or_insert(0) += 1;
+                if rc != code && violations.len() < 20 {
+                    let mut p2 = plan.clone();
+                    if *build == "dev" {
+                        p2.generated_bases = ctx.tier.pick(2, 24);
+                        p2.corpus = false;
+                    }
+                    let inputs = inputs_of_base(&p2, *b, &corpus);
+                    let input = inputs.get(*s as usize);
+                    let op = input.map(|i| i.operator.clone()).unwrap_or_default();
+                    let kind = |c: &str| c.split(':').next().unwrap_or("?").to_string();
+                    violations.push(json!({
+                        "sig": format!("profile-dependent-result|{}-vs-release|{}->{}|{}", build, kind(code), kind(rc), op.split(':').take(2).collect::<Vec<_>>().join(":")),
+                        "detail": format!("input gives {} in the {} build but {} in the release build: {}", code, build, rc, input.map(|i| i.label.clone()).unwrap_or_default()),
+                        "input_hex": input.filter(|i| i.bytes.len() <= 65536).map(|i| crate::val::hex(&i.bytes)),
+                        "base": b, "sub": s, "operator": op,
+                    }));
+                }
+            }
+        }
+        for (_, v) in &r.summary.violations {
+            // deaths in digest mode are not judged here (C04/C05 do); but they make the comparison incomplete
+            inconclusive.push(format!("{} build: {}", build, v.sig));
+        }
+    }
+    inconclusive.truncate(3);
+    if compared < 1000 {
+        inconclusive.push(format!("only {} inputs compared across profiles", compared));
+    }
+    let doc = json!({
+        "violations": violations,
+        "inconclusive": inconclusive,
+        "counters": {"cross_profile_inputs_compared": compared},
+        "coverage": {"cross_profile": {"inputs_compared": compared, "outcome_kinds": by_kind, "builds": ["checked (opt-level 3 + overflow checks + debug assertions)", "dev (opt-level 0 + checks)", "release (stock)"]}},
+    });
+    let _ = std::fs::write(&out, serde_json::to_string_pretty(&doc).unwrap());
+    0
+}
